@@ -33,6 +33,9 @@ def revert_mutants(only=None, tier="quick"):
         for k in known:
             if k.get("status") != "fixed" or (only and k["id"] not in only):
                 continue
+            if k.get("revert_observable") is False:
+                res.append({"finding": k["id"], "commit": k["commit"], "result": "SKIPPED", "why": k.get("revert_note", "")})
+                continue
             wt = os.path.join(base, k["id"])
             rc, out = sh(["git", "-C", "/repo", "worktree", "add", "--detach", wt, "HEAD"])
             if rc != 0:
